@@ -498,6 +498,7 @@ pub fn run(tier: Tier) -> i32 {
             check_signed_bytes(&mut acc, &layout_with(f, s), f, s, "layout", &ring_ed);
         }
     }
+    crate::envprobe::judge(&mut acc, "C11:", &mut c.extra);
     c.acc = acc;
     c.rule = format!(
         "(A) every scalar of the tier's set as the whole `name` of a link (stdout / readme on a subset); (B) every string of length <= {k} over {{\\, \", n, LF, a}} in each of {} link fields and {} layout fields, via Metablock::new and via the builder, plus reference-made Ed25519/ECDSA/RSA signatures fed to verify; (B2) the structural value families of C16 (digest shapes, negative / extreme numbers, every rule form, key tables); (B3) strings of 15..4097 (70001) characters in stdout / readme / an environment name; (D) the four Python-made, Python-signed documents through the parser of the library and Metablock::verify; before every signing the escaped canonical form of the same value is computed on the same thread (no influence allowed); (C) C0 controls and captured-output shapes in every field; key ids of all fixture keys and hash-algorithm-list variants. distinct_nontrivial = scalars + (field, string) pairs + key-id cases",
